@@ -38,6 +38,31 @@ PROPS = {
     },
 }
 
+
+HIST_NOTE = LEAVES + "; histories of <= 20 (quick) / 40 (thorough) operations on <= 3 dimensions x 3 attributes in the correspondence, theorems unbounded"
+
+def _hist_prop(pid, modules, text, note=HIST_NOTE, configs=ONE):
+    PROPS[pid] = {"modules": modules, "campaigns": [hist(pid, configs)], "level_text": text, "level_note": note}
+
+_hist_prop("C03", ["CC.Props.C03"],
+    "Lean theorems: along every history of the seven edit operations identifiers stay below a never-decreasing counter and a new attribute receives an identifier strictly greater than any ever in use (never reissued, deleted holders included); rename / disable keep identifier, hint and position; rights with different id sets differ. Correspondence: random edit/update/keygen/refresh/encaps histories (delete-then-add, rename chains, dimension delete/re-add) with structure dumps, key dumps and the full decaps matrix compared between the real API and the model")
+_hist_prop("C04", ["CC.Props.C04"],
+    "Lean theorems: the repaired revision iterator reaches every secret of every chain; rekey prepends a fresh token; a key with only older tokens cannot open an encapsulation for newer ones; a chain refreshed with keep starts with the master's newest secret and has the closed form of refreshChain_spec under the contiguity invariants. Correspondence: histories with partial rekeys, refresh with both flags, encapsulation under stale public keys; chain contents and decaps matrices compared")
+_hist_prop("C05", ["CC.Props.C05"],
+    "Lean theorems: prune keeps exactly the newest secret of a pruned right and leaves others untouched; every secret of a key refreshed with keep is a current master secret of that right, rights gone from the master key are dropped; without keep exactly the newest secret; a key holding only master secrets cannot open an encapsulation made under removed secrets. Correspondence: rekey/prune/delete/update/refresh histories, chain contents and decaps matrices compared")
+_hist_prop("C06", ["CC.Props.C06"],
+    "Lean theorems: rekey and prune never change the activation flag of the newest secret; the public key publishes a right only if its newest secret is activated; a deactivated right has no entry in any derived public key; encapsulation fails when a targeted right is unpublished; update_msk sets the flag from the structure. Correspondence: histories with disable followed by update/rekey/prune/mpk re-derivation/serialisation round-trips, encaps ok/err under every public key compared")
+_hist_prop("C09", ["CC.Props.C09"],
+    "Lean theorems characterising, for all states and arguments, exactly when each structure edit, rekey, update_msk and key generation fail (iff statements). Correspondence: histories with 35% malformed arguments (unknown/duplicate/stale names, same-dimension clauses, rollbacks of the master key); ok/err of every call compared with the model")
+_hist_prop("C10", ["CC.Props.C10"],
+    "Lean theorems over models that return the state the code leaves behind on each path: a failing update_msk, rekey, key generation or refresh returns the master key (and the user key) unchanged - the in-loop error branches are unreachable once the up-front validation passed. Correspondence: histories with 35% malformed arguments; serialised master and user keys dumped after every failing call and compared")
+_hist_prop("C11", ["CC.Props.C11"],
+    "Lean theorems: a right's hint is the disjunction of its attributes' hints; new secrets take the hint's flavour; rekey keeps flavours; public keys and refreshed user keys copy master secrets (flavour included); an encapsulation is hybridized iff all targeted keys are; classic secrets open nothing in a hybridized encapsulation. Correspondence: flavour flags of MSK/MPK/USK/XEnc dumps for random hint assignments and mixed-hint policies")
+_hist_prop("C17", ["CC.Props.C17", "CC.Props.C17Alg"],
+    "Lean theorems: generated keys carry fresh, registered identifiers and the master key's tracers; identifiers of different keys differ; unknown identifiers are refused with nothing changed; refresh keeps registration; (Mathlib, any field) the last marker solved from the others satisfies sum t_i a_i = s for every tracing level. Correspondence: keygen/refresh/round-trip/rollback histories; user counts, ids, tracer counts compared")
+_hist_prop("C18", ["CC.Props.C18"],
+    "Lean theorems: full_decaps recovers exactly the rights whose newest secret is activated and one of whose secrets opens a component; recaps draws a new secret and targets the published keys of exactly those rights in the flavour they all support; it fails when nothing is recovered; an up-to-date authorised key opens the result. Correspondence: histories with recaps after rekeys/prunes/disables/deletions under every public key; decaps matrices of the outputs compared")
+
 # operations whose ok/err status or outcome is what the property talks about
 BEHAVIOUR_KINDS = {"behaviour", "status", "panic"}
 
